@@ -77,6 +77,8 @@ CROSS_ALPHABET = [('announce-500', 1), ('announce-500', 2), ('dlopen-500', 1), (
                   ('terminate-self', 1), ('terminate-self', 2)]       # a thread goes on emitting records after its own terminate record
 
 
+DISPLAY_OFF = [False]     # set while the cross-thread commutation is repeated with the process / thread / timestamp columns switched off
+NOMAP = [False]    # set while request histories are repeated on dumps whose header carries NO thread map (the stream declares its threads itself)
 V3 = [False]       # set by the 'A+' shard while it repeats the commutation check on version-3 dumps that also carry log records
 
 
@@ -92,8 +94,8 @@ def build_stream(opseq):
             {'cm': 1, 't': 'logEvent', 's': i, 'tid': 40 + i, 'ns': 5, 'mct': 6 + i, 'b': b'B' * 16, 'piu': b'P' * 16,
              'ud': {'sec': 1600000000, 'usec': 7}, 'utz': {'mw': 0, 'dt': 0}} for i in range(2)]}))
         sidx = B.v3_block(B.TAG_LOG_STRINGS, B.bplist({'StringIndex': {'hello': 1, 'proc': 2}}))
-        return B.v3(MAP, [recs[:len(recs) // 2], recs[len(recs) // 2:]], [sidx, logs])
-    return B.v2(MAP, 0, recs)
+        return B.v3([] if NOMAP[0] else MAP, [recs[:len(recs) // 2], recs[len(recs) // 2:]], [sidx, logs])
+    return B.v2([] if NOMAP[0] else MAP, 0, recs)
 
 
 CLASSES = [1, 3, 4, 7, 0x1f]
@@ -118,6 +120,9 @@ def configure(f, cfg, as_tuple=False):
     f.filter_class = tuple(cl) if as_tuple else list(cl)
     f.filter_subclass = tuple(sc) if as_tuple else list(sc)
     f.color = False
+    if DISPLAY_OFF[0]:
+        # display switches do not take part in selecting traces
+        f.show_process = f.show_tid = f.show_timestamp = False
 
 
 def request_lazy(f, blob, kind, tc):
@@ -434,6 +439,16 @@ class C13(Check):
                 if bad:
                     acc.violation(bad[0] + ':cross-thread', {'kind': 'A', 'ops': [list(o) for o in opseq], 'cfg': [cfg[0], cfg[1], list(cfg[2]), list(cfg[3])], 'as_tuple': False},
                                   {k: (v if not isinstance(v, list) else v[:3] + ['...']) for k, v in bad[1].items()})
+                if cfg[1] is not None and not bad:
+                    DISPLAY_OFF[0] = True
+                    try:
+                        bad = judge_commute(opseq, cfg, False)
+                    finally:
+                        DISPLAY_OFF[0] = False
+                    acc.case(nontrivial=True, transitions=2, state=h64((cfg, 'X-display-off')))
+                    if bad:
+                        acc.violation(bad[0] + ':cross-thread:display-columns-off', {'kind': 'A', 'ops': [list(o) for o in opseq], 'cfg': [cfg[0], cfg[1], list(cfg[2]), list(cfg[3])], 'as_tuple': False,
+                                                                                     'display_off': True}, {k: (v if not isinstance(v, list) else v[:3] + ['...']) for k, v in bad[1].items()})
 
     def run_aplus(self, acc):
         """the commutation check on a stream with a very long call, and with class lists that repeat an entry."""
@@ -511,6 +526,16 @@ class C13(Check):
                             if bad:
                                 acc.violation(bad[0], {'kind': 'B', 'stream': si, 'cfg': [tid, proc, list(cl), list(sc)], 'as_tuple': as_tuple,
                                                        'requests': list(hist)}, bad[1])
+                            if len(hist) >= 2 and not as_tuple and any(o[0] in ('newthread-pair', 'exec-rename', 'trace-exec') for o in HIST_STREAMS[si]):
+                                NOMAP[0] = True
+                                try:
+                                    bad = judge_history(si, cfg, as_tuple, hist)
+                                finally:
+                                    NOMAP[0] = False
+                                acc.case(nontrivial=True, transitions=2 * len(hist), state=h64((cfg, 'nomap')), outcome=h64((si, hist, 'nomap', bad is None)))
+                                if bad:
+                                    acc.violation(bad[0] + ':dump-without-thread-map', {'kind': 'B', 'stream': si, 'cfg': [tid, proc, list(cl), list(sc)], 'as_tuple': as_tuple,
+                                                                                        'requests': list(hist), 'nomap': True}, bad[1])
                             if len(hist) >= 2 and not as_tuple:
                                 for reverse in (False, True):
                                     bad = judge_lazy(si, cfg, hist, reverse)
@@ -541,10 +566,23 @@ class C13(Check):
             return [(sig, v['cases'][0][1]) for sig, v in acc.violations.items()]
         c = case['cfg']
         cfg = (c[0], c[1], tuple(c[2]), tuple(c[3]))
+        if case['kind'] == 'A' and case.get('display_off'):
+            DISPLAY_OFF[0] = True
+            try:
+                bad = judge_commute(tuple(tuple(o) for o in case['ops']), cfg, case['as_tuple'])
+            finally:
+                DISPLAY_OFF[0] = False
+            return [(bad[0] + ':cross-thread:display-columns-off', bad[1])] if bad else []
         if case['kind'] == 'A':
             bad = judge_commute(tuple(tuple(o) for o in case['ops']), cfg, case['as_tuple'])
         else:
-            bad = judge_history(case['stream'], cfg, case['as_tuple'], tuple(case['requests']))
+            NOMAP[0] = bool(case.get('nomap'))
+            try:
+                bad = judge_history(case['stream'], cfg, case['as_tuple'], tuple(case['requests']))
+            finally:
+                NOMAP[0] = False
+            if bad and case.get('nomap'):
+                bad = (bad[0] + ':dump-without-thread-map', bad[1])
         return [bad] if bad else []
 
 
